@@ -75,8 +75,13 @@ func (w *World) stepHandles(st string) bool {
 				return false
 			}
 		}
-		m := w.models[p.TakenAt].Kids["A"]
-		if m == nil {
+		hasA := false
+		if names, err := p.Snap.ChildCollectionNames(); err == nil {
+			for _, n := range names {
+				hasA = hasA || n == "A"
+			}
+		}
+		if !hasA {
 			return false
 		}
 		cs, err := p.Snap.ChildCollectionSnapshot("A")
